@@ -1,6 +1,6 @@
 // C09 - Geometry construction preserves the meaning of the user's solids.
 //
-// Enumerated space (E4 over object trees, problems/solid_programs.hh), 50 leaf solids:
+// Enumerated space (E4 over object trees, problems/solid_programs.hh).  BASE ZOO, 50 leaf solids:
 //   u: leaf x 10 transforms x {plain, negated} x 5 placements (global implicit / explicit /
 //      sphere + background; daughter unit with explicit or implicit boundary under each of 7
 //      transforms)
@@ -11,6 +11,28 @@
 //      translation / rotation (nested transforms; every surface type must be merged)
 //   p: the partition {A&B, A-B, B-A} of every pair as three materials of one unit
 //   t: (thorough) depth-3 trees (A op1 B) op2 C over a 12-leaf subset
+// EXTENSION (sprog::enumerate_extension; C09 only):
+//   + 5 GenPrism leaves whose end faces are triangles written with four points (two consecutive
+//     vertices coincide: v0==v1 below / v1==v2 above / v0==v1 on both / controls v2==v3, v3==v0),
+//     in kind u (everything above) and in kind b with box1 / sph1 / cyl1 (both operand orders)
+//   + kind c under the MIRROR PAIR of tilts (+-1/12 turn about x about the same centre): two
+//     general quadrics that differ only in their cross terms
+//   + SECOND CONSTRUCTION TOLERANCE  Tolerance::from_relative(1e-6, 100)  (rel 1e-6, abs 1e-4:
+//     abs != rel, length scale != 1): u (all 55 leaves x 10 transforms x polarity x {implicit,
+//     explicit}), c (4 transform pairs), n (quick: under id/tr/gen)
+//   + kind f: two copies of a leaf at |t| ~ 50 (translation, and the generic rotation +
+//     translation), displaced from one another by 4e-3 resp. 8e-3 (40 / 80 x the second
+//     tolerance's abs, far beyond rel x |t| = 5e-5) x 3 operations, under both tolerances; besides
+//     the lattices, DIRECTED probes: along lines parallel to the displacement every boundary
+//     crossing of the first copy is located with the oracle (bisection) and probed at +-1/2 and
+//     +-3/2 displacement, i.e. inside the thin regions that belong to exactly one copy
+//   + placements selfW / selfD: units that consist of a boundary and a background ONLY (global
+//     unit whose boundary is the solid itself; daughter {boundary = solid, background} under 7
+//     transforms in an implicit world) - the shape the Geant4 converter gives every leaf volume
+//   + kind h: 4 universes, depth 3: world(explicit box){D1 under P1, D1 again under P2, D2 under
+//     P3}, D1 = {A, rest}, D2 (implicit sphere + background) = {D3 under P4}, D3 = {B, rest}; both
+//     orders of the world's daughter list (deep daughter last / first); one lattice per placed
+//     leaf unit besides the world lattice
 // Every program goes through the real pipeline
 //     UnitProto -> InputBuilder (surface transformation, simplification, soft de-duplication,
 //     bounding zones, exterior replacement, postfix logic) -> OrangeParams (UnitInserter, BIH)
@@ -22,15 +44,27 @@
 // view reports volume V  iff  the point satisfies V's analytic definition, is not claimed by a
 // placed daughter (inside a daughter: the daughter's own volume at the transformed point), and
 // "outside" iff it is outside the global boundary.  Points closer than
-//     10 * tol.rel * max(1, L)      (L = largest world coordinate; tol = Tolerance::from_default,
-//                                    rel = abs = 1.5e-8)
+//     10 * max(tol.abs, tol.rel * L)   (L = largest world coordinate; default tolerance: abs = rel
+//                                       = 1.5e-8, i.e. 10 * tol.rel * max(1, L); second
+//                                       tolerance: 1e-3 for L <= 100)
 // to ANY constituent surface (also extensions of faces and surfaces internal to a union) are
 // skipped: construction may move surfaces by the tolerance (snapping, merging of near-coincident
 // surfaces) and the tracker refuses to initialise on a surface.  The factor 10 covers the
 // relative-tolerance comparisons (tol.rel x coordinate magnitude <= tol.rel x L) with margin; it
 // is a property-given bound ("farther than the construction tolerance from every surface"), not
 // a tuned one.
+//
+// Not a verdict: a global unit whose boundary is the solid (selfW) is refused by UnitProto with
+// "global boundary must be finite" when it cannot determine the boundary's extents (documented
+// validation): counted as programs_refused_global_boundary_extents.
+//
+// Signatures: leaf-membership:<kind> (the leaf is already wrong when built alone),
+// membership:<kinds> (flipping that leaf explains the label), init-failed:<kinds>,
+// wrong-volume:<kinds>, construct-throws:<message>; two recorded defects have their own,
+// narrowly conditioned ones: genprism-leaddup:end-plane-missing / :valid-prism-rejected and
+// softeq-distance:far-copies-merged (see the code next to them for the exact conditions).
 #include <algorithm>
+#include <csignal>
 #include <cmath>
 #include <cstdint>
 #include <exception>
@@ -131,6 +165,24 @@ std::string first_words(std::string const& what)
 int main(int argc, char** argv)
 {
     vf::Run R(argc, argv, "C09", "c09_solids");
+    {
+        // A stack overflow inside the library (e.g. unbounded recursion of a surface simplifier
+        // on a NaN surface) must be attributed to the running case like any other crash: run
+        // the engine's fatal-signal handler for SIGSEGV / SIGBUS on an alternate stack.
+        static std::vector<char> alt(1 << 16);
+        stack_t ss{};
+        ss.ss_sp = alt.data();
+        ss.ss_size = alt.size();
+        if (sigaltstack(&ss, nullptr) == 0)
+        {
+            struct sigaction sa{};
+            sa.sa_handler = vf::detail::on_fatal;
+            sa.sa_flags = SA_ONSTACK;
+            sigemptyset(&sa.sa_mask);
+            sigaction(SIGSEGV, &sa, nullptr);
+            sigaction(SIGBUS, &sa, nullptr);
+        }
+    }
     bool const thorough = R.thorough();
     int const nlat = 9;
 
